@@ -1,6 +1,7 @@
 package main
 
 import (
+	"sort"
 	"fmt"
 	"go/constant"
 	"go/token"
@@ -234,14 +235,42 @@ func propC05(c *Ctx, r *Report) {
 				continue
 			}
 			cons := fmt.Sprintf("%s -> %s %s", fname(f), shortCallee(ci.Common()), ord(ordn.next(n)))
-			src := unwrapConv(harg)
-			desc := valuePath(src)
-			if tp := typePath(src); tp != "" {
-				desc = tp
+			// by origin, not by name: the executing height, the height field of the fetched block, or a height of the
+			// holding window (last rated height .. executing height) for batches read back from holding
+			okk := true
+			var descs []string
+			leaves := c.originLeaves(harg, c.RSync)
+			for _, l := range leaves {
+				switch {
+				case c.isExecHeight(l):
+					descs = append(descs, "executing height")
+				case typePath(l) == "factom.EBlock.Height" || typePath(l) == "factom.DBlock.Height":
+					descs = append(descs, typePath(l))
+				default:
+					okL := false
+					if ex, ok := l.(*ssa.Extract); ok {
+						if call, ok := ex.Tuple.(*ssa.Call); ok && shortCallee(call.Common()) == "SelectMostRecentRatesBeforeHeight" {
+							okL = true
+							descs = append(descs, "last rated height")
+						}
+					}
+					if bo, ok := l.(*ssa.BinOp); ok && bo.Op == token.ADD {
+						if _, isPhi := bo.X.(*ssa.Phi); isPhi {
+							if k, ok := bo.Y.(*ssa.Const); ok && k.Value != nil && k.Int64() == 1 {
+								okL = true
+								descs = append(descs, "holding-window height")
+							}
+						}
+					}
+					if !okL {
+						okk = false
+						descs = append(descs, stablePath(l, 0))
+					}
+				}
 			}
-			_, isConst := src.(*ssa.Const)
-			okk := !isConst && (desc == "factom.EBlock.Height" || desc == "currentHeight" || desc == "height")
-			r.check(okk, "C05-R4/height-arguments", cons, c.ipos(ci), "height = "+desc, "height argument is "+desc+harg.String()+": a constant or foreign height selects the wrong key-type mask (a negative one accepts every key type)")
+			sort.Strings(descs)
+			desc := strings.Join(dedupStrings(descs), ", ")
+			r.check(okk && len(leaves) > 0, "C05-R4/height-arguments", cons, c.ipos(ci), "height = "+desc, "the height argument can be ["+desc+"]: a constant or foreign height selects the wrong key-type mask (a negative one accepts every key type)")
 		}
 	}
 
